@@ -14,7 +14,7 @@ CLAIM = {
             "model of selectors.py produce exactly the RFC nodelist (values, order, duplicates, normalized paths), primitives (strings included) select "
             "nothing, with the index-on-object departure stated explicitly. The model is tied to selectors.py/path.py by differential execution of the "
             "implementation's own compiled AST; surface forms (dot/bracket, quote styles, escapes, blanks) are tied by rendering generated ASTs to text "
-            "in random RFC spellings and comparing the implementation with the RFC interpreter run on the generated AST.",
+            "in random RFC spellings and comparing the implementation with the RFC interpreter run on the generated AST. Character level: for every spelling the RFC grammar allows for a string literal (Lex.Spells) the lexer model's quoted-string rule takes the text between the quotes and the parser's decoding yields the string spelled (string_spelling); .name is one name token for every name of the shorthand shape (dot_shorthand); lexer rule texts regenerated from lex.py (lex_source_ok).",
     "note": "Trusted: Lean kernel; models JP.Query / JP.Rfc9535; the renderer harness/qgen.py (RFC printer) for the surface-form clause, which is "
             "correspondence-level (the lexer/parser are not modelled in Lean); dict/list only (no other Mapping/Sequence types).",
     "technique": "Lean 4 refinement proof (selector/segment model vs RFC 9535 interpreter) + differential correspondence on rendered spellings",
